@@ -203,4 +203,34 @@ direct := Half(n := seven) / two;\nt := Half(n := seven);\nvia := t / two;\nbig 
             (0, "Main.q", "LREAL#400c000000000000"),
         ],
     },
+    Cell {
+        name: "for-bounds-evaluated-before-control-assignment",
+        text: "PROGRAM Main\nVAR i : INT := 10; j : INT := 3; n1 : INT; n2 : INT; n3 : INT; last1 : INT; END_VAR\n\
+FOR i := INT#1 TO i + INT#2 DO\n  n1 := n1 + INT#1;\nEND_FOR;\nlast1 := i;\n\
+FOR j := INT#2 TO INT#20 BY j DO\n  n2 := n2 + INT#1;\nEND_FOR;\n\
+i := INT#4;\nFOR i := i + INT#1 TO i * INT#2 DO\n  n3 := n3 + INT#1;\nEND_FOR;\nEND_PROGRAM\n",
+        cycles: 1,
+        expect: &[
+            (0, "Main.n1", "INT#Int(12)"), // 1..12: the end value uses i = 10
+            (0, "Main.n2", "INT#Int(7)"),  // 2,5,8,...,20 with step 3 (the old j)
+            (0, "Main.n3", "INT#Int(4)"),  // 5..8
+        ],
+    },
+    Cell {
+        name: "jmp-leaves-nested-statements",
+        text: "FUNCTION F : INT\nVAR_INPUT a : INT; END_VAR\nIF a > INT#0 THEN\n  JMP done;\nEND_IF;\nF := INT#1;\ndone: F := F + INT#2;\nEND_FUNCTION\n\
+PROGRAM Main\nVAR i : INT; n1 : INT; n2 : INT; n3 : INT; n4 : INT; k : INT; END_VAR\n\
+IF TRUE THEN\n  IF n1 < INT#100 THEN\n    JMP l1;\n  END_IF;\n  n1 := INT#50;\nEND_IF;\nn1 := INT#1;\nl1: n1 := n1 + INT#2;\n\
+FOR i := INT#0 TO INT#9 DO\n  n2 := n2 + INT#1;\n  IF i = INT#3 THEN\n    JMP l2;\n  END_IF;\nEND_FOR;\nn2 := INT#100;\nl2: n2 := n2 + INT#10;\n\
+l3: k := k + INT#1;\nIF k < INT#5 THEN\n  JMP l3;\nEND_IF;\nn3 := k;\n\
+n4 := F(INT#1) * INT#10 + F(INT#0);\nEND_PROGRAM\n",
+        cycles: 1,
+        expect: &[
+            (0, "Main.n1", "INT#Int(2)"),  // the assignment of 1 is skipped
+            (0, "Main.n2", "INT#Int(14)"), // four iterations, then the label
+            (0, "Main.i", "INT#Int(3)"),   // the control variable keeps the value it had at the jump
+            (0, "Main.n3", "INT#Int(5)"),  // a backward jump out of an IF repeats the list from the label
+            (0, "Main.n4", "INT#Int(23)"), // F(1) = 2, F(0) = 3
+        ],
+    },
 ];
